@@ -374,6 +374,19 @@ theorem event_puts_are_reference (e : Event) :
   by_cases hu : e.uuid = [] <;> cases he : e.escalation <;>
     simp [Gen.C05.steps_EventPack, putsOf, semEvent, S0, hu, he, foldAttrs, putVal, k1, k2, k3, k4]
 
+/-- `EventPack.Write` takes out of `Attr` again exactly the keys it puts there (frame condition of a send of an event:
+    `C05.send_event_frame_condition`): the keys of its `Put` statements and of its `Remove` statements are the same set -/
+theorem event_removes_what_it_puts :
+    ∀ k, k ∈ Gen.C05.eventRemovedKeys ↔ k ∈ ["UUID_KEY", "ESCALATION_KEY", "STATUS_KEY", "OTYPE_KEY"] := by
+  have h : Gen.C05.eventRemovedKeys = ["UUID_KEY", "ESCALATION_KEY", "STATUS_KEY", "OTYPE_KEY"] := by decide
+  intro k; rw [h]
+
+/-- … and those four are the keys of the `Put` statements (whatever the branch conditions) -/
+theorem event_put_keys (e : Event) :
+    ∀ kv ∈ putsOf (semEvent e) Gen.C05.steps_EventPack, kv.1 ∈ ["UUID_KEY", "ESCALATION_KEY", "STATUS_KEY", "OTYPE_KEY"] := by
+  by_cases hu : e.uuid = [] <;> cases he : e.escalation <;>
+    simp [Gen.C05.steps_EventPack, putsOf, semEvent, S0, hu, he]
+
 def semHitMap (p : HitMap) : Sem :=
   { S0 with
     hdr := encHdr p.hdr
